@@ -348,35 +348,34 @@ class SchedulingSolver(BaseModelWithJson):
             # Non concurrent buffers
             #
             elif isinstance(buffer, NonConcurrentBuffer):
-                buffer_mapping = z3.Array(
-                    f"Buffer_{buffer.name}_mapping", z3.IntSort(), z3.IntSort()
-                )
-                # a task that is not scheduled does not access the buffer: the
-                # quantity mapped to its (negative) point in the past is zero
-                for t in buffer._unloading_tasks:
-                    self.append_z3_assertion(
-                        buffer_mapping
-                        == z3.Store(
-                            buffer_mapping,
-                            t._start,
-                            z3.If(t._scheduled, -buffer._unloading_tasks[t], 0),
+                # the quantity moved at each level change time. No array: with an array-encoded
+                # mapping the builtin z3 optimizer may return a schedule that is not optimal
+                def quantity_moved_at(time):
+                    # a task that is not scheduled does not access the buffer
+                    moves = [
+                        z3.If(
+                            z3.And(time == t._start, t._scheduled),
+                            -buffer._unloading_tasks[t],
+                            0,
                         )
-                    )
-                for t in buffer._loading_tasks:
-                    self.append_z3_assertion(
-                        buffer_mapping
-                        == z3.Store(
-                            buffer_mapping,
-                            t._end,
-                            z3.If(t._scheduled, +buffer._loading_tasks[t], 0),
+                        for t in buffer._unloading_tasks
+                    ]
+                    moves += [
+                        z3.If(
+                            z3.And(time == t._end, t._scheduled),
+                            +buffer._loading_tasks[t],
+                            0,
                         )
-                    )
-                # and, for the other, the buffer level i+1 is the buffer level i +/- the buffer change
+                        for t in buffer._loading_tasks
+                    ]
+                    return z3.Sum(moves)
+
+                # the buffer level i+1 is the buffer level i +/- the buffer change
                 for i in range(len(buffer._buffer_levels) - 1):
                     self.append_z3_assertion(
                         buffer._buffer_levels[i + 1]
                         == buffer._buffer_levels[i]
-                        + buffer_mapping[buffer._level_changes_time[i]]
+                        + quantity_moved_at(buffer._level_changes_time[i])
                     )
 
         # Finally add other assertions (FOL, user defined)
